@@ -57,13 +57,18 @@ def main(pids, only_dir, tier):
                     missed += 1
                     continue
             else:
-                fp = os.path.join(d, m["file"])
-                s = open(fp).read()
-                if s.count(m["old"]) != 1:
-                    print(f"{pid} {name}: MUTANT-STALE (old text occurs {s.count(m['old'])} times)")
+                stale = False
+                for ed in m.get("edits") or [m]:
+                    fp = os.path.join(d, ed["file"])
+                    s = open(fp).read()
+                    if s.count(ed["old"]) != 1:
+                        print(f"{pid} {name}: MUTANT-STALE (old text occurs {s.count(ed['old'])} times)")
+                        stale = True
+                        break
+                    open(fp, "w").write(s.replace(ed["old"], ed["new"]))
+                if stale:
                     missed += 1
                     continue
-                open(fp, "w").write(s.replace(m["old"], m["new"]))
             code, out = _run(pid, d, tier)
             clauses = [l.strip() for l in out.splitlines() if l.strip().startswith("clause=")]
             verdict = "KILLED" if code == 1 else ("HARNESS-ERROR" if code == 2 else "MISSED")
